@@ -17,7 +17,9 @@ RULE = ("random trees (depth <= N) over plain sync/async managers (some falsy: _
         "push_async_exit(manager/function/method), push_async_callback; observed suspended in the body, and while the "
         "outer generator-based manager is exiting (suspended in an async manager's finally / probed from a sync "
         "manager's finally). non-trivial = tree with >= 3 nodes; distinct by (interpreter, tree text, observation kind)")
-ASSUMPTIONS = ["registration method in the description is checked up to what contextlib itself keeps: push(cm) == "
+ASSUMPTIONS = ["referents-mode shards use no alias-named exit methods (documented limit of that analysis: it "
+               "recognises exit methods by name)",
+               "registration method in the description is checked up to what contextlib itself keeps: push(cm) == "
                "enter_context(cm), push_async_exit(cm) == enter_async_context(cm)",
                "pushed functions are Python functions (a builtin function has __self__ = its module)"]
 MIN_NONTRIVIAL = {"quick": 3000, "thorough": 60000}
@@ -25,7 +27,8 @@ REQUIRED_COUNTERS = {"falsy_managers_in_stacks": {"quick": 200, "thorough": 4000
                      "exiting_observations": {"quick": 500, "thorough": 10000},
                      "exit_stack_unwinding_observations": {"quick": 500, "thorough": 10000},
                      "exit_stack_children_checked": {"quick": 3000, "thorough": 60000},
-                     "gcm_inner_stacks_checked": {"quick": 3000, "thorough": 60000}}
+                     "gcm_inner_stacks_checked": {"quick": 3000, "thorough": 60000},
+                     "shards_in_referents_mode": {"quick": 4, "thorough": 4}}
 SHARD_TIMEOUT = {"quick": 400, "thorough": 5400}
 INTERPS = ["3.12", "3.11", "3.10", "3.9"]
 
@@ -36,6 +39,11 @@ def plan(tier, seed):
         for s in range(4):
             shards.append({"interp": interp, "seed": seed * 100 + s, "cases": 6000 if tier == "quick" else 150000,
                            "max_depth": 3 if tier == "quick" else 5, "budget_s": 40 if tier == "quick" else 1500})
+        # the same trees through the fallback (gc-referents) analysis: the tree of managers does not depend on
+        # which analysis found them
+        shards.append({"interp": interp, "seed": seed * 100 + 7, "cases": 6000 if tier == "quick" else 150000,
+                       "max_depth": 3 if tier == "quick" else 5, "budget_s": 40 if tier == "quick" else 1500,
+                       "referents": True})
     return shards
 
 
@@ -52,6 +60,10 @@ def worker(spec):
     res = Result()
     interp = "%d.%d" % sys.version_info[:2]
     budget = ctxwork.Budget(spec.get("budget_s", 60))
+    if spec.get("referents"):
+        from stackscope import lowlevel as _ll
+        _ll.set_trickery_enabled(False)
+        res.count("shards_in_referents_mode")
     rng = random.Random(spec["seed"])
     maxd = spec["max_depth"]
 
@@ -213,12 +225,12 @@ def worker(spec):
     async def build(n):
         k = n[0]
         if k == "S":
-            m = (SX if rng.random() < 0.15 else S)(n[1])
+            m = (SX if rng.random() < 0.15 and not spec.get("referents") else S)(n[1])
             if isinstance(m, SX):
                 res.count("alias_named_exit_managers")
             return m, ("plain", m, False)
         if k == "A":
-            m = (AX if rng.random() < 0.15 else A)(n[1])
+            m = (AX if rng.random() < 0.15 and not spec.get("referents") else A)(n[1])
             if isinstance(m, AX):
                 res.count("alias_named_exit_managers")
             return m, ("plain", m, True)
